@@ -546,6 +546,7 @@ def _run(rep, tier, only=None):
     # ---- scenario mode
     tot = dict(modules=0, scans=fr.n_scans, maps=0, entries=0, flags=0, nshape=0, nimprecise=0)
     shape, imprecise, errs = [], [], []
+    seen_dims = dict(kind=set(), link=set(), ctx=set(), type=set(), depth=set(), nestdepth=set())
     nsc = 0
     ctx = multiprocessing.get_context('fork')
     for name, kw, sim in _plans(tier):
@@ -576,6 +577,13 @@ def _run(rep, tier, only=None):
         if not uniq:
             raise common.MachineryError('plan %s produced no scenarios' % name)
         rep.set('scenarios_' + name, len(uniq))
+        for _, r in uniq:
+            seen_dims['kind'].add(r['kind'])
+            seen_dims['link'].update(r['chain'])
+            seen_dims['ctx'].update(c for n in r['nest'] for c in n)
+            seen_dims['type'].add(r['type'])
+            seen_dims['depth'].add(len(r['chain']))
+            seen_dims['nestdepth'].add(len(r['nest'][-1]))
         items = [(r, False) for _, r in uniq]
         if name == 'bfs-depth1':
             tw = [(r, True) for _, r in uniq if r['k'] in (2, 7) and not r['prior']][:6]
@@ -606,6 +614,14 @@ def _run(rep, tier, only=None):
             imprecise += out['imprecise']
     if errs:
         raise common.MachineryError(errs[0])
+    if not only:      # vacuity: every value of every scenario dimension was exercised
+        want = dict(kind={'UE', 'CE', 'KeyError', 'IndexError', 'ZeroDivisionError', 'TypeError', 'AttributeError', 'ValueError'},
+                    link={'conv', 'dnc', 'allow'}, ctx=set(ALL_CTX), type={'same', 'keysub', 'staging'},
+                    depth={1, 2, 3, 4}, nestdepth={0, 1, 2, 3})
+        for d, w in want.items():
+            if not w <= seen_dims[d]:
+                raise common.MachineryError('vacuity: dimension %s only saw %s' % (d, sorted(seen_dims[d], key=str)))
+    rep.set('dimensions_covered', {d: sorted(v, key=str) for d, v in seen_dims.items()})
     # model-precision problems are only a verdict of their own when nothing the statement demands failed
     if imprecise and not rep.violations:
         raise common.MachineryError('transcription imprecise in %d scenario(s): %s' % (tot['nimprecise'], imprecise[0]))
